@@ -2,6 +2,7 @@ package c19
 
 import (
 	"fmt"
+	"runtime/debug"
 	"strconv"
 
 	"github.com/dop251/goja"
@@ -76,6 +77,14 @@ var (
 
 const caseFuel = 40000000
 
+// maxCallStack is the documented guard against runaway recursion; the model's depth bound (jsonref.MaxDepth) is below it.
+const maxCallStack = 400
+
+func init() {
+	// a runaway native recursion inside the engine must die quickly and attributably, not after growing a 1 GB stack
+	debug.SetMaxStack(96 << 20)
+}
+
 // eng is one goja runtime prepared for JSON work.
 type eng struct {
 	r         *goja.Runtime
@@ -88,6 +97,7 @@ type eng struct {
 func newEng(withPrelude bool) *eng {
 	r := gj.NewRuntime()
 	goja.VerifSetFuel(r, caseFuel)
+	r.SetMaxCallStackSize(maxCallStack)
 	e := &eng{r: r}
 	o := gj.Call(func() (goja.Value, error) {
 		j := r.Get("JSON").ToObject(r)
@@ -186,6 +196,13 @@ func (e *eng) dump(v goja.Value) ([]jsonref.Tok, out) {
 		return nil, e.classify(g)
 	}
 	return toks, out{}
+}
+
+func (e *eng) global(name string) goja.Value {
+	if v := e.r.Get(name); v != nil {
+		return v
+	}
+	return goja.Undefined()
 }
 
 // strUnits returns the UTF-16 code units of an engine string value; ok=false if v is not a string.
